@@ -1,34 +1,55 @@
 """Translator: the anchored scalar formulas of pyttb/cp_als.py
 -> lean/PyttbModel/Generated/CpAlsFormulas.lean (definitions only).
 
-The Python source is parsed with `ast` on every run.  The anchors are found by their
-*role* in `cp_als` (the assignment targets `normresidual`, `fit`, `fitchange`, `weights`
-and the tests of the `if` statements that select between them inside the
-`for iteration in range(maxiters)` loop), never by line number.  Each right-hand side is
-translated into a Lean definition over an arbitrary scalar type with the free Python names
-as parameters; `sqrt`, `abs`, `<`, `== 0`, `maximum` and the integer literals are taken from
-the record `NumOps` so that the same definition runs at `Float` (trace validation) and is
-reasoned about over a linear ordered field (theorems of Props/C09.lean).
+The Python source is parsed with `ast` on every run and `cp_als` is read SEMANTICALLY (harness/translate/flow.py: the
+body is executed symbolically, module-level helper functions are executed in place, every variable is followed to the
+expression that reaches it).  The anchors are found by their ROLE, never by a line number or a variable name:
+
+  the main loop        the `for <it> in range(maxiters)` loop of `cp_als`
+  fit, normresidual    the values that reach the entries "fit" and "normresidual" of the returned dictionary: at the end
+                       of the loop body each must be `A if <test> else B` with the same test; `branchZero` is the
+                       test, `normresidualZero` / `normresidual` and `fitZero` / `fit` are the four branch values.
+                       Inside them `input_tensor.norm()` is the parameter `normX`, `<model>.norm()` is `normM`, the
+                       value of the residual of the same branch is `normresidual`, and the one array-level expression
+                       left (the inner product) is `iprod`
+  the final report     if the dictionary entries are recomputed under `if printitn > 0:` after the loop, the
+                       recomputation must give the same five definitions
+  stopTest, fitchange  the path condition of the loop's only `break` (so `flag = 0 / 1` + `if flag == 0: break`,
+                       `converged = True / False` + `if converged: break`, `converged = bool(<test>)` and
+                       `if <test>: break` read the same); `fitchange` is the maximal sub-expression of it that is built
+                       from the new fit and the fit of the previous pass (`fitold = fit` at the top of the body)
+  colWeight*           the value that reaches the second argument of `ttb.ktensor(U, <weights>)` at the end of the body
+                       of the mode loop: `A if <first-iteration test> else B`
+
+Each value is translated into a Lean definition over an arbitrary scalar type with the free names as parameters;
+`sqrt`, `abs`, `<`, `== 0`, `maximum` and the integer literals are taken from the record `NumOps` so that the same
+definition runs at `Float` (trace validation) and is reasoned about over a linear ordered field (theorems of
+Props/C09.lean).
 
 Accepted AST subset of a scalar formula: names, integer literals, `+ - * /`, `** k` with a
 positive integer literal `k` (rendered as a repeated product), `np.abs`/`abs`, `np.sqrt`,
-the argument-free method call `M.norm()` (a free parameter `normM`), one-operator comparisons
-`< > == ` (`== 0` only for scalars), `and` / `or`.  For the column scale additionally
-`sum(e, 0)`, `np.max(e, 0)`, `np.maximum(a, b)` where `e` is an entry-wise expression in
-`Unew`.  Anything else, or a missing anchor, is reported as "anchor lost: <name>" and nothing
-is guessed.
+one-operator comparisons `< > == ` (`== 0` only for scalars), `and` / `or`.  For the column scale additionally
+`sum(e, 0)`, `np.max(e, 0)`, `np.maximum(a, b)` where `e` is an entry-wise expression in the (one) matrix.
+Anything else, or a missing anchor, is reported as "anchor lost: <name>" and nothing is guessed: the definitions that
+COULD be read are still emitted (a change in one of them is not hidden by a lost anchor elsewhere), the others are
+filled in from the pinned file by harness/translate/__init__.py.
 
-`formulas()` also returns the Python expressions (as source text) so that the harness can
-cross-check the translator's reading: the generated Lean definition evaluated by the driver at
-`Float` against `eval` of the original expression on the same points.
+`formulas()` also returns the Python expressions (as source text over the parameter names) so that the harness can
+cross-check the translator's reading: the generated Lean definition evaluated by the driver at `Float` against `eval`
+of the expression on the same points.  The doc comments carry that expression (the source snippet with the
+inputs under their parameter names), never a line number, so a shifted line or a renamed local does not change the
+generated text.
 """
 from __future__ import annotations
 
 import ast
+import copy
 import hashlib
 from pathlib import Path
 
 from harness.lib import LEAN, REPO
+from harness.translate import flow
+from harness.translate.flow import Flow, conj, fold, fold_where, plain, simplify, text
 
 PROPS = ["C09", "C18"]
 OUT = LEAN / "PyttbModel" / "Generated" / "CpAlsFormulas.lean"
@@ -36,9 +57,7 @@ SRC = REPO / "pyttb" / "cp_als.py"
 
 NAT_NAMES = {"iteration"}
 SCALAR_NAMES = {"normX", "iprod", "fitold", "fit", "normresidual", "stoptol", "fitchange", "normM"}
-METHOD_PARAMS = {("M", "norm"): "normM"}
-#: call that stands for the inner product in the printing-only recomputation
-FINAL_IPROD = "input_tensor.innerprod(M)"
+NORMX_SRC = "input_tensor.norm()"
 
 
 class Lost(Exception):
@@ -58,7 +77,7 @@ class Tr:
         self.column_var = column_var
 
     def bad(self, node, what):
-        raise Lost(f"{self.where}: unsupported {what} at line {getattr(node, 'lineno', '?')}")
+        raise Lost(f"{self.where}: unsupported {what} in `{plain(node)[:80]}`")
 
     def param(self, name, sort):
         if (name, sort) not in self.params:
@@ -110,9 +129,6 @@ class Tr:
                 self.bad(node, "power with a non-literal exponent")
             self.bad(node, f"operator {type(node.op).__name__}")
         if isinstance(node, ast.Call):
-            if isinstance(node.func, ast.Attribute) and isinstance(node.func.value, ast.Name) \
-                    and (node.func.value.id, node.func.attr) in METHOD_PARAMS and not node.args and not node.keywords:
-                return self.param(METHOD_PARAMS[(node.func.value.id, node.func.attr)], "α")
             name = self.np_call(node)
             if name in ("abs", "absolute", "sqrt") and len(node.args) == 1 and not node.keywords:
                 self.uses_o = True
@@ -195,86 +211,230 @@ def lean_def(name, doc, tr: Tr, body, ret, extra_params=()):
 
 
 # ----------------------------------------------------------------------------
-# anchors
+# anchors (by role, through the data flow)
 # ----------------------------------------------------------------------------
-def _assign_to(stmts, target):
-    """The single `target = expr` among stmts (no descent)."""
-    hits = [s for s in stmts if isinstance(s, ast.Assign) and len(s.targets) == 1
-            and isinstance(s.targets[0], ast.Name) and s.targets[0].id == target]
-    if len(hits) != 1:
-        raise Lost(f"{target}: expected exactly one assignment, found {len(hits)}")
-    return hits[0].value
+def _np_name(node):
+    f = node.func
+    if isinstance(f, ast.Attribute) and isinstance(f.value, ast.Name) and f.value.id == "np":
+        return f.attr
+    if isinstance(f, ast.Name):
+        return f.id
+    return None
 
 
-def _find(stmts, pred, what):
-    hits = [s for s in stmts if pred(s)]
-    if len(hits) != 1:
-        raise Lost(f"{what}: expected exactly one, found {len(hits)}")
-    return hits[0]
+def _pure_call(n):
+    return _np_name(n) in ("abs", "absolute", "sqrt") and len(n.args) == 1 and not n.keywords
 
 
-def _is_if_on(s, names):
-    return isinstance(s, ast.If) and {n.id for n in ast.walk(s.test) if isinstance(n, ast.Name)} == set(names)
+def _is_norm_call(n):
+    return (isinstance(n, ast.Call) and isinstance(n.func, ast.Attribute) and n.func.attr == "norm"
+            and not n.args and not n.keywords)
 
 
-def _subst_call(node, call_src, name):
-    """Replace every sub-expression whose source is `call_src` by Name(name)."""
-    class T(ast.NodeTransformer):
-        def visit_Call(self, n):
-            if ast.unparse(n) == call_src:
-                return ast.copy_location(ast.Name(id=name, ctx=ast.Load()), n)
-            return self.generic_visit(n)
-    return T().visit(ast.parse(ast.unparse(node), mode="eval").body)
+def _fold_inputs(e, extra, where):
+    """`input_tensor.norm()` -> normX, `<model>.norm()` -> normM (one model per formula), keys of `extra` -> their
+    names."""
+    receivers = set()
+
+    def pred(n):
+        t = text(n)
+        if t in extra:
+            return extra[t]
+        if plain(t) == NORMX_SRC:
+            return "normX"
+        if _is_norm_call(n):
+            receivers.add(text(n.func.value))
+            return "normM"
+        return None
+    out = fold_where(e, pred)
+    if len(receivers) > 1:
+        raise Lost(f"{where}: the formula uses the norms of {len(receivers)} different objects")
+    return out
 
 
-def read_anchors(tree):
-    """-> dict anchor name -> ast expression node (raises Lost)."""
-    fn = _find(tree.body, lambda s: isinstance(s, ast.FunctionDef) and s.name == "cp_als", "def cp_als")
-    loop = _find(fn.body, lambda s: isinstance(s, ast.For) and isinstance(s.target, ast.Name)
-                 and s.target.id == "iteration", "for iteration")
-    if ast.unparse(loop.iter) != "range(maxiters)":
-        raise Lost("for iteration: not over range(maxiters)")
-    A = {}
-    # residual / fit branches
-    br = _find(loop.body, lambda s: _is_if_on(s, ["normX"]), "if normX == 0 (loop)")
-    A["branchZero"] = br.test
-    A["normresidualZero"] = _assign_to(br.body, "normresidual")
-    A["fitZero"] = _assign_to(br.body, "fit")
-    A["normresidual"] = _assign_to(br.orelse, "normresidual")
-    A["fit"] = _assign_to(br.orelse, "fit")
-    A["fitchange"] = _assign_to(loop.body, "fitchange")
-    # fitold = fit at the top of the pass
-    if ast.unparse(_assign_to(loop.body, "fitold")) != "fit":
-        raise Lost("fitold: is no longer `fitold = fit`")
-    # stop test: the `if` that assigns flag = 0 / flag = 1
-    st = _find(loop.body, lambda s: isinstance(s, ast.If) and any(
-        isinstance(x, ast.Assign) and ast.unparse(x) == "flag = 0" for x in s.body), "stop test")
-    if not any(ast.unparse(x) == "flag = 1" for x in st.orelse):
-        raise Lost("stop test: else branch no longer sets flag = 1")
-    A["stopTest"] = st.test
-    brk = _find(loop.body, lambda s: isinstance(s, ast.If) and ast.unparse(s.test) == "flag == 0"
-                and len(s.body) == 1 and isinstance(s.body[0], ast.Break), "if flag == 0: break")
-    del brk
-    # column scale inside the mode loop
-    inner = _find(loop.body, lambda s: isinstance(s, ast.For) and isinstance(s.target, ast.Name)
-                  and s.target.id == "n", "for n in dimorder")
-    cs = _find(inner.body, lambda s: _is_if_on(s, ["iteration"]), "if iteration == 0")
-    A["firstIteration"] = cs.test
-    A["colWeightFirst"] = _assign_to(cs.body, "weights")
-    A["colWeightLater"] = _assign_to(cs.orelse, "weights")
-    # the printing-only recomputation must use the same formulas
-    pr = [s for s in fn.body if isinstance(s, ast.If) and ast.unparse(s.test) == "printitn > 0"
-          and any(_is_if_on(x, ["normX"]) for x in s.body)]
-    if len(pr) != 1:
-        raise Lost("final report: `if printitn > 0:` block with the recomputation not found")
-    fb = _find(pr[0].body, lambda s: _is_if_on(s, ["normX"]), "if normX == 0 (final)")
-    pairs = [("branchZero", fb.test), ("normresidualZero", _assign_to(fb.body, "normresidual")),
-             ("fitZero", _assign_to(fb.body, "fit")), ("normresidual", _assign_to(fb.orelse, "normresidual")),
-             ("fit", _assign_to(fb.orelse, "fit"))]
-    for name, node in pairs:
-        if ast.dump(_subst_call(node, FINAL_IPROD, "iprod")) != ast.dump(ast.parse(ast.unparse(A[name]), mode="eval").body):
-            raise Lost(f"final report: `{name}` differs from the formula used in the loop")
-    return A, fn
+def _opaque_parts(e):
+    """Maximal sub-expressions of a scalar formula that are outside the scalar subset."""
+    out = []
+
+    def go(n):
+        if isinstance(n, ast.Constant):
+            return
+        if isinstance(n, ast.Name) and n.id in SCALAR_NAMES | NAT_NAMES:
+            return
+        if isinstance(n, ast.BinOp) and isinstance(n.op, (ast.Add, ast.Sub, ast.Mult, ast.Div, ast.Pow)):
+            go(n.left)
+            go(n.right)
+            return
+        if isinstance(n, ast.Call) and _pure_call(n):
+            go(n.args[0])
+            return
+        out.append(n)
+    go(e)
+    return out
+
+
+def _fold_iprod(e, F, forbidden, where):
+    """The one array-level expression left in a residual formula is the inner product <X, M>."""
+    parts = _opaque_parts(e)
+    texts = {text(x) for x in parts}
+    if not texts:
+        return e
+    if len(texts) > 1:
+        raise Lost(f"{where}: more than one array-level sub-expression: {sorted(plain(t)[:40] for t in texts)}")
+    x = parts[0]
+    shape = F.deref(x, 1) if isinstance(x, ast.Name) else x
+    if not (isinstance(shape, ast.Call) or (isinstance(shape, ast.BinOp) and isinstance(shape.op, ast.MatMult))):
+        raise Lost(f"{where}: unsupported operand `{plain(x)[:60]}`")
+    bad = {flow.base(i) for i in flow.names(x)} & forbidden
+    if bad or NORMX_SRC in plain(x):
+        raise Lost(f"{where}: the array-level operand depends on {sorted(bad) or NORMX_SRC}")
+    return fold(e, {text(x): "iprod"})
+
+
+def _five(v_nr, v_fit, F, forbidden, where):
+    """branch test + the four branch values, folded to the parameter names."""
+    v_nr, v_fit = simplify(v_nr), simplify(v_fit)
+    if not (isinstance(v_nr, ast.IfExp) and isinstance(v_fit, ast.IfExp)):
+        raise Lost(f"{where}: fit / normresidual are not chosen by a test on the norm of the data")
+    if text(v_nr.test) != text(v_fit.test):
+        raise Lost(f"{where}: fit and normresidual are chosen by different tests")
+    out = {"branchZero": _fold_inputs(v_nr.test, {}, where)}
+    for tag, nr, ft in (("Zero", v_nr.body, v_fit.body), ("", v_nr.orelse, v_fit.orelse)):
+        out["normresidual" + tag] = _fold_iprod(_fold_inputs(nr, {}, where), F, forbidden, where)
+        f2 = _fold_inputs(ft, {text(nr): "normresidual"}, where)
+        out["fit" + tag] = _fold_iprod(f2, F, forbidden, where)
+        for k in ("normresidual" + tag, "fit" + tag):
+            out[k]._src = flow.src_of(nr if k.startswith("normres") else ft)
+    out["branchZero"]._src = flow.src_of(v_nr.test)
+    return out
+
+
+def read_anchors(src):
+    """-> (A: anchor name -> expression over the parameter names, lost: [str], desc)."""
+    A, lost, desc = {}, [], {}
+    F = Flow(src, roots=["cp_als"])
+    try:
+        R = F.run("cp_als")
+    except KeyError:
+        return A, ["def cp_als: function not found"], desc, None
+    desc["inlined_helpers"] = list(F.inlined)
+    main = [L for L in R.loops() if plain(L.iter) == "range(maxiters)" and len(L.targets) == 1]
+    if len(main) != 1:
+        return A, [f"main loop: expected exactly one `for <it> in range(maxiters)`, found {len(main)}"], desc, F
+    L = main[0]
+    it_sym = f"{L.targets[0]}{flow.SEP}in{L.id}"
+
+    def attempt(f):
+        try:
+            f()
+        except Lost as e:
+            lost.append(str(e))
+        except Exception as e:  # noqa: BLE001
+            lost.append(f"{f.__name__.strip('_')}: {type(e).__name__}: {e}")
+
+    def at_exit(var, what):
+        """value of `var` when the loop is left (end of the body and every break agree)"""
+        v = L.end(var)
+        if v is None:
+            raise Lost(f"{what}: `{var}` is not assigned in the main loop")
+        for _, env in L.breaks:
+            if var in env and text(env[var]) != text(v):
+                raise Lost(f"{what}: `{var}` differs between `break` and the end of the pass")
+        return v
+
+    roles = {}
+
+    def residual_and_fit():
+        ds = {text(d): d for d in flow.find_dict_with(R, ["fit", "normresidual"])}
+        if len(ds) != 1:
+            raise Lost(f"fit: expected one returned dictionary with the entries \"fit\" and \"normresidual\", found {len(ds)}")
+        d = next(iter(ds.values()))
+        var_fit, rec_fit = flow.split_sink(flow.dict_get(d, "fit"), F, L.id)
+        var_nr, rec_nr = flow.split_sink(flow.dict_get(d, "normresidual"), F, L.id)
+        if var_fit is None or var_nr is None:
+            raise Lost("fit: the reported fit / normresidual do not come from the main loop")
+        roles["fit"], roles["nr"] = var_fit, var_nr
+        forbidden = {var_fit, var_nr, "stoptol", L.targets[0]}
+        five = _five(at_exit(var_nr, "normresidual"), at_exit(var_fit, "fit"), F, forbidden, "fit (loop)")
+        if len(rec_fit) != len(rec_nr):
+            raise Lost("final report: fit and normresidual are not recomputed together")
+        for rf, rn in zip(rec_fit, rec_nr):
+            again = _five(rn, rf, F, forbidden, "final report")
+            for k in five:
+                if text(again[k]) != text(five[k]):
+                    raise Lost(f"final report: `{k}` differs from the formula used in the loop")
+        A.update(five)
+
+    def stop_rule():
+        if "fit" not in roles:
+            raise Lost("stop test: the fit of the pass was not found")
+        if len(L.breaks) != 1:
+            raise Lost(f"stop test: expected exactly one `break` in the main loop, found {len(L.breaks)}")
+        pc, _ = L.breaks[0]
+        c = conj(pc)
+        if c is None:
+            raise Lost("stop test: unconditional break")
+        v_fit = at_exit(roles["fit"], "stop test")
+        leaves = {it_sym: "iteration", text(v_fit): "fit", f"{roles['fit']}{flow.SEP}in{L.id}": "fitold"}
+        c = simplify(fold(c, leaves))
+        cands = flow.maximal_over(c, {"fit", "fitold"}, _pure_call)
+        if len(cands) != 1:
+            raise Lost(f"fitchange: expected one quantity built from the old and the new fit in the stop test, found {len(cands)}")
+        fc = cands[0]
+        A["fitchange"] = copy.deepcopy(fc)
+        A["stopTest"] = fold(c, {text(fc): "fitchange"})
+        A["stopTest"]._src = text(A["stopTest"])
+
+    def column_scale():
+        kts = {}
+        for e in L.entries(("assign", "effect", "return"), deep=False):
+            for n in ast.walk(e.value):
+                if isinstance(n, ast.Call) and plain(n.func) == "ttb.ktensor" and len(n.args) == 2:
+                    kts[text(n)] = n
+        if len(kts) != 1:
+            raise Lost(f"colWeight: expected one `ttb.ktensor(U, weights)` in the main loop, found {len(kts)}")
+        w = next(iter(kts.values())).args[1]
+        s = F.sym(w.id) if isinstance(w, ast.Name) else None
+        if not s or s["kind"] != "out":
+            raise Lost("colWeight: the weights of the model do not come from the mode loop")
+        L2 = F.regions[s["region"]]
+        v = L2.end(s["var"])
+        v = simplify(v) if v is not None else None
+        if not isinstance(v, ast.IfExp):
+            raise Lost("colWeight: the column scale is not chosen by a test on the iteration number")
+        A["firstIteration"] = fold(v.test, {it_sym: "iteration"})
+        A["firstIteration"]._src = flow.src_of(v.test)
+        leaves = []
+
+        def entry_leaf(n):
+            if isinstance(n, ast.BinOp) and isinstance(n.op, ast.Pow):
+                return entry_leaf(n.left)
+            if isinstance(n, ast.Call) and _np_name(n) in ("abs", "absolute") and len(n.args) == 1:
+                return entry_leaf(n.args[0])
+            leaves.append(n)
+
+        def col(n):
+            if isinstance(n, ast.Call):
+                nm = _np_name(n)
+                if nm in ("sum", "max") and n.args:
+                    return entry_leaf(n.args[0])
+                if nm in ("maximum", "sqrt"):
+                    for a in n.args:
+                        col(a)
+        col(v.body)
+        col(v.orelse)
+        texts = {text(x) for x in leaves}
+        if len(texts) != 1:
+            raise Lost(f"colWeight: expected one matrix under the column reductions, found {len(texts)}")
+        m = {texts.pop(): "Unew"}
+        for k, e in (("colWeightFirst", v.body), ("colWeightLater", v.orelse)):
+            A[k] = fold(e, m)
+            A[k]._src = flow.src_of(e)
+
+    attempt(residual_and_fit)
+    attempt(stop_rule)
+    attempt(column_scale)
+    return A, lost, desc, F
 
 
 #: array-level statements of the loop that the hand-written model mirrors; a change is
@@ -295,63 +455,63 @@ PINNED = [
     "dimorder = [int(d) for d in dimorder if d in optdims]",
 ]
 
+ORDER = [("branchZero", "bool", "Bool"), ("normresidualZero", "scalar", "α"), ("fitZero", "scalar", "α"),
+         ("normresidual", "scalar", "α"), ("fit", "scalar", "α"), ("fitchange", "scalar", "α"),
+         ("stopTest", "bool", "Bool"), ("firstIteration", "bool", "Bool"), ("colWeightFirst", "column", "α"),
+         ("colWeightLater", "column", "α")]
+
 
 def build():
     """-> (lean text | None, lost list, description dict)."""
-    lost = []
     desc = {}
     try:
         src = SRC.read_text()
-        tree = ast.parse(src)
-        A, fn = read_anchors(tree)
-    except (Lost, OSError, SyntaxError) as e:
-        return None, [str(e)], desc
-    stmts = {ast.unparse(s) for s in ast.walk(fn) if isinstance(s, ast.stmt)}
-    desc["drifted_statements"] = [p for p in PINNED if p not in stmts]
-    desc["source_sha1"] = hashlib.sha1(ast.dump(fn).encode()).hexdigest()[:16]
+        A, lost, desc, F = read_anchors(src)
+    except (OSError, SyntaxError) as e:
+        return None, [f"cp_als.py unreadable: {e}"], desc
+    if F is not None:
+        fns = [F.funcs[n] for n in ["cp_als"] + desc.get("inlined_helpers", []) if n in F.funcs]
+        stmts = {ast.unparse(s) for fn in fns for s in ast.walk(fn) if isinstance(s, ast.stmt)}
+        desc["drifted_statements"] = [p for p in PINNED if p not in stmts]
+        if "cp_als" in F.funcs:
+            desc["source_sha1"] = hashlib.sha1(ast.dump(F.funcs["cp_als"]).encode()).hexdigest()[:16]
     parts = []
     exprs = {}
-
-    def emit(name, kind, ret, extra=(), column=False):
-        node = A[name]
+    for name, kind, ret in ORDER:
+        node = A.get(name)
+        if node is None:
+            if not any(name in m for m in lost):
+                lost.append(f"{name}: not read")
+            continue
+        column = kind == "column"
         tr = Tr(name, column_var="Unew" if column else None)
         try:
             body = {"scalar": tr.scalar, "bool": tr.boolean, "column": tr.column}[kind](node)
         except Lost as e:
             lost.append(str(e))
-            return
-        doc = ast.unparse(node).replace("`", "'")
+            continue
+        py = text(node)
+        # the snippet shown is the expression over the parameter names (what was translated, and what the cross-check
+        # family evaluates): a refactoring that keeps the formula keeps the generated text byte for byte
+        doc = py.replace("`", "'")
         if column:
             tr.params.append(("Unew", "List α"))
-        parts.append(lean_def(name, doc, tr, body, ret, extra))
-        exprs[name] = {"python": ast.unparse(node), "params": [p for p, _ in tr.params], "uses_o": tr.uses_o}
-
-    emit("branchZero", "bool", "Bool")
-    emit("normresidualZero", "scalar", "α")
-    emit("fitZero", "scalar", "α")
-    emit("normresidual", "scalar", "α")
-    emit("fit", "scalar", "α")
-    emit("fitchange", "scalar", "α")
-    emit("stopTest", "bool", "Bool")
-    emit("firstIteration", "bool", "Bool")
-    emit("colWeightFirst", "column", "α", column=True)
-    emit("colWeightLater", "column", "α", column=True)
+        parts.append(lean_def(name, doc, tr, body, ret))
+        exprs[name] = {"python": py, "params": [p for p, _ in tr.params], "uses_o": tr.uses_o}
     desc["anchors"] = sorted(exprs)
     desc["expressions"] = exprs
-    if lost:
-        return None, lost, desc
-    text = (
+    text_ = (
         "/- GENERATED by harness/translate/gen_cpals.py from pyttb/cp_als.py -- do not edit. -/\n"
         "import PyttbModel.Alg.CpAlsNum\n"
         "namespace Pyttb.CpAls.Gen\n\n"
         "variable {α : Type} [Add α] [Sub α] [Mul α] [Div α] [Zero α]\n\n"
         + "\n".join(parts)
-        + "\n/-- the column scale chosen in pass `iteration` (the `if` around the two assignments) -/\n"
+        + "\n/-- the column scale chosen in pass `iteration` (the test in front of the two formulas) -/\n"
           "def colWeight (o : NumOps α) (iteration : Nat) (Unew : List α) : α :=\n"
           "  if firstIteration iteration then colWeightFirst o Unew else colWeightLater o Unew\n"
           "\nend Pyttb.CpAls.Gen\n"
     )
-    return text, lost, desc
+    return text_, lost, desc
 
 
 def formulas():
@@ -361,12 +521,22 @@ def formulas():
 
 
 def run(prop: str, info: dict):
-    text, lost, desc = build()
+    text_, lost, desc = build()
     info.setdefault("translators", {})["gen_cpals"] = {
-        "lost": lost, "anchors": desc.get("anchors", []),
+        "lost": lost, "anchors": desc.get("anchors", []), "inlined_helpers": desc.get("inlined_helpers", []),
         "drifted_statements": desc.get("drifted_statements", []), "source_sha1": desc.get("source_sha1")}
-    if text is not None:
+    if text_ is None:
+        # the source could not be read at all: the pinned definitions (never a stale file of another tree)
+        pin = Path(__file__).parent / "pinned" / OUT.name
+        text_ = pin.read_text() if pin.exists() else None
+    if text_ is not None:
         OUT.parent.mkdir(parents=True, exist_ok=True)
-        if not OUT.exists() or OUT.read_text() != text:
-            OUT.write_text(text)
+        if not OUT.exists() or OUT.read_text() != text_:
+            OUT.write_text(text_)
     return [f"gen_cpals: {a}" for a in lost]
+
+
+if __name__ == "__main__":
+    t, l, d = build()
+    print(t)
+    print("lost:", l)
